@@ -9,6 +9,7 @@ Import ListNotations.
 Lemma table_is_ok : table_ok access_table = true. Proof. reflexivity. Qed.
 Lemma ids_are_atomic : nextid_atomic = true. Proof. reflexivity. Qed.
 Lemma closes_are_guarded : forallb (fun s => snd s) close_sites = true. Proof. reflexivity. Qed.
+Lemma send_waits : broker_send_waits_reply = true. Proof. reflexivity. Qed.
 
 (* (1) NextId never returns the same id twice: any number of calls up to 2^32 (the counter is a uint32 and wraps), from
    any goroutines, in any order *)
@@ -26,6 +27,11 @@ Proof.
   intros site Hin closers. apply close_calls_once.
   pose proof closes_are_guarded as H. rewrite forallb_forall in H. exact (H site Hin).
 Qed.
+
+(* (2b) the broker streams' reply channels: the stream goroutine never sends on a channel its requester has closed, for
+   every schedule of take / reply / give-up attempts *)
+Theorem C20_reply_channel_safe : forall sched, q_panic (rq_run broker_send_waits_reply sched) = false.
+Proof. intros sched. rewrite send_waits. exact (reply_channel_safe sched). Qed.
 
 (* (3) no data race on a mutex-guarded field: threads performing any sequences of the API functions of the table,
    interleaved in any way the mutexes allow, order every two accesses of one field by a release/acquire of its lock *)
@@ -50,6 +56,10 @@ Proof. split; [reflexivity|]. eexists; split; reflexivity. Qed.
 
 (* check-then-close panics under the schedule in which both closers look before either closes *)
 Example C20_refuted_unguarded_close : c_panics (cl_run [CChk 0; CChk 1; CCls 0; CCls 1]) = 1%nat.
+Proof. reflexivity. Qed.
+
+(* a Send that may also return when the broker is closed lets the reply hit a closed channel *)
+Example C20_refuted_send_gives_up : q_panic (rq_run false [RqTake; RqGiveUp; RqReply]) = true.
 Proof. reflexivity. Qed.
 
 (* an access outside the lock makes the table fail its check, and gives a trace with two unordered accesses *)
